@@ -4,7 +4,7 @@ from __future__ import annotations
 import asyncio
 import random
 
-from lib import astcodec, doccases, docprops, parsecorr, render
+from lib import corefrag, astcodec, doccases, docprops, parsecorr, render
 
 LEVEL = "proof"
 DRIVERS = ["syn"]
@@ -37,6 +37,8 @@ def corr_of(c):
 
 def run(ctx):
     hm = doccases.have_model(ctx)
+    # core fragment of Rt/TokRound.v (theorem parse_core_doc): deep nesting, scalars of every kind
+    corefrag.run(ctx, ctx.scale(150, 3000), hm)
     from octave_mcp.core.parser import parse_with_warnings
     from octave_mcp.mcp.validate import ValidateTool
     from octave_mcp.mcp.write import WriteTool
